@@ -110,6 +110,8 @@ def c01_stages(tier, seed):
             c01_family("F4_q", fam="F4", leafs="F4_Leafs", comps="F4_Comps", inlines="F4_Inlines", maxsel=2, maxnodes=4,
                        maxdepth=3, dirs="DirsNone", outs="OT_Abstract"),
             c01_family("F5_q", fam="F5", leafs="F5_Leafs", maxsel=2, maxnodes=2, dirs="DirsNone"),
+            c01_family("F7_q", fam="F7", frags="FragsGO", leafs="F7_Leafs", comps="F7_Comps", spread="SpreadLater",
+                       maxsel=2, maxnodes=7, maxdepth=3, dirs="DirsNone"),
         ]
     return [
         default_resolve(tier),
@@ -123,6 +125,8 @@ def c01_stages(tier, seed):
         c01_family("F4_t", fam="F4", leafs="F4_Leafs", comps="F4_Comps", inlines="F4_Inlines", maxsel=3, maxnodes=5,
                    maxdepth=3, dirs="DirsOne", outs="OT_Abstract", timeout=3000),
         c01_family("F5_t", fam="F5", leafs="F5_Leafs", maxsel=3, maxnodes=3, dirs="DirsOne"),
+        c01_family("F7_t", fam="F7", frags="FragsGO", leafs="F7_Leafs", comps="F7_Comps", spread="SpreadLater",
+                   maxsel=3, maxnodes=8, maxdepth=4, dirs="DirsNone", timeout=3000),
     ]
 
 
@@ -185,6 +189,8 @@ def c20_stages(tier, seed):
                    maxsel=3 if big else 2, maxnodes=5 if big else 4, maxdepth=3, dirs="DirsNone", outs="OT_Abstract"),
         c01_family("F5_c20", replay="C20", fam="F5", leafs="F5_Leafs", maxsel=3 if big else 2, maxnodes=3 if big else 2,
                    dirs="DirsNone"),
+        c01_family("F7_c20", replay="C20", fam="F7", frags="FragsGO", leafs="F7_Leafs", comps="F7_Comps", spread="SpreadLater",
+                   maxsel=2, maxnodes=8 if big else 7, maxdepth=3, dirs="DirsNone"),
         c04_stage("c20_faults", "{2,3,4}", 2, "plain", replay="C20"),
     ]
 
